@@ -45,6 +45,10 @@ func genBusProgram(rng *rand.Rand, k busKnobs) *busProgram {
 				opts = append(opts, o)
 			}
 		}
+		// now and then a hook option is given a nil function (an optional hook that was not configured)
+		if rng.Intn(4) == 0 {
+			opts = append(opts, []string{"nilBeforeLegacy", "nilAfterLegacy", "nilBeforeCtx", "nilAfterCtx"}[rng.Intn(4)])
+		}
 	}
 	rng.Shuffle(len(opts), func(i, j int) { opts[i], opts[j] = opts[j], opts[i] })
 	p.opts = opts
@@ -342,6 +346,19 @@ func directedBus(name string, idx int) (*busProgram, func([]who) who) {
 		p.bodies[1] = []action{}
 		p.opts, p.optArgs = []string{"store", "beforeCtx"}, []int{0, 1}
 		p.threads = [][]action{{sub(0, hspec{fn: 0, filter: -1}), pub(0, 1, 0)}}
+		return p, newestPick
+	case name == "bus09" && idx == 1:
+		// a nil context hook after WithStore: still persisting
+		p := base()
+		p.opts, p.optArgs = []string{"store", "nilBeforeCtx"}, []int{0, 0}
+		p.threads = [][]action{{sub(0, hspec{fn: 0, filter: -1}), pub(0, 1, 0)}}
+		return p, newestPick
+	case name == "bus09" && idx == 2:
+		// a hook, the store, then the hook cleared with nil
+		p := base()
+		p.bodies[1] = []action{}
+		p.opts, p.optArgs = []string{"beforeCtx", "store", "nilBeforeCtx"}, []int{1, 0, 0}
+		p.threads = [][]action{{sub(0, hspec{fn: 0, filter: -1}), pub(0, 1, 0), pub(0, 2, 0)}}
 		return p, newestPick
 	case name == "bus03" && idx == 0:
 		// the documented exception: a synchronous Sequential handler publishes an event that is delivered back to itself
